@@ -64,6 +64,7 @@ pub fn worker(args: &[String]) -> i32 {
         Some("pool") => c18::worker_pool(args.get(1).map(|s| s.as_str()).unwrap_or("quick"), args.get(2).map(|s| s.as_str()).unwrap_or("/dev/null")),
         Some("poolverify") => c18::worker_poolverify(&args[1..]),
         Some("firsttouch") => c18::worker_firsttouch(args.get(1).map(|s| s.as_str()).unwrap_or("hash"), args.get(2).map(|s| s.as_str()).unwrap_or("hash")),
+        Some("tree") => tree::worker_tree(),
         Some("seeded") => c14::worker_seeded(args.get(1).map(|s| s.as_str()).unwrap_or("")),
         _ => 2,
     }
